@@ -7,13 +7,28 @@ from .common import Check, Err, clist, cz
 from . import exprs
 
 FB = 100000
-SZ = {"B": 1, "H": 2, "I": 4, "Q": 8, "b": 1, "h": 2, "i": 4, "q": 8, "x": 8}
+class _Sizes(dict):
+    """bytes a variable occupies: what struct (native mode, as the accessors use it) packs for its format"""
+    def __missing__(self, f):
+        return 8 if f == "x" else struct.calcsize(f)
+
+
+SZ = _Sizes()
+ALIAS = {"l": "q", "L": "Q", "n": "q", "N": "Q"}
 
 
 def rand_val(rng, f):
     if f == "x":
         return rng.choice([0.29, 1.5, -2.75, 123.456, 0.00001, 0.57])
-    return exprs.rand_value(rng, f)
+    if f == "f":
+        return rng.choice([0.0, 1.5, -0.25, 1024.0, -3.0e10, 2.0 ** -20])
+    if f == "d":
+        return rng.choice([0.0, 0.1, -2.75, 1e300, 5e-324, 123.456])
+    if f == "?":
+        return rng.random() < 0.5
+    if len(f) > 1:
+        return tuple(rand_val(rng, c) for c in f)
+    return exprs.rand_value(rng, ALIAS.get(f, f))
 
 
 class C29(Check):
@@ -28,7 +43,7 @@ class C29(Check):
 
     def make_case(self, rng):
         from . import c29_devs
-        devs = [rng.choice("ABC") for _ in range(rng.randint(1, 3))]
+        devs = [rng.choice("ABCD") for _ in range(rng.randint(1, 3))]
         case = {"devs": devs, "parent": [], "child": []}
         for i, d in enumerate(devs):
             for n, f in c29_devs.variables(c29_devs.CLASSES[d]):
@@ -43,7 +58,9 @@ class C29(Check):
         return [self.make_case(self.rng) for _ in range(10 if self.tier == "quick" else 60)]
 
     def corpus(self):
-        return [{"devs": ["A", "C", "A"], "parent": [[0, "a_q", -5], [1, "a_H", 2 ** 40], [2, "a_x", 0.29]], "child": [[0, "a_B", 200], [1, "c_I", 7], [2, "a_q", 11]]}]
+        return [{"devs": ["D", "B"], "parent": [[0, "d_l", -888], [0, "d_L", 2 ** 63 + 5], [0, "d_Bq", (200, -7)], [1, "b_I", 12345]],
+                 "child": [[0, "d_h", -2], [0, "d_f", 1.5], [0, "d_I", 4000000000], [0, "d_b", -3], [1, "b_Q", 2 ** 64 - 1]]},
+                {"devs": ["A", "C", "A"], "parent": [[0, "a_q", -5], [1, "a_H", 2 ** 40], [2, "a_x", 0.29]], "child": [[0, "a_B", 200], [1, "c_I", 7], [2, "a_q", 11]]}]
 
     def run_impl(self, case):
         from . import c29_devs
@@ -123,6 +140,10 @@ class C29(Check):
             exp[i, n] = v
 
         def same(a, b, f):
+            if isinstance(b, list):
+                b = tuple(b)
+            if b == 0 and isinstance(a, tuple):
+                b = tuple(0 for _ in a)             # never written: all members zero
             return abs(a - b) < 1e-9 if f == "x" else a == b
         for (i, n, f), got in zip(allv, o["child_first"]):
             if not same(got, exp[i, n], f):
@@ -144,7 +165,7 @@ class C29(Check):
         return not isinstance(o, Err)
 
     def rule(self):
-        return ("1-3 device instances out of three classes (formats B H I Q b h i q x, one class derived from another and redefining a variable with a larger "
+        return ("1-3 device instances out of four classes (formats B H I Q b h i q x l L N f d ? and the padded multi-member formats Bq and HHI, one class derived from another and redefining a variable with a larger "
                 "format); 40% of the variables written in the parent, 40% in a spawned child process that received the pickled ProcessSyncGroup; the child "
                 "reads everything before and after its writes, the parent reads everything back")
 
